@@ -8,6 +8,7 @@ mod progs;
 mod c08;
 mod c09;
 mod c10;
+mod c12;
 mod c13;
 mod c15;
 mod c16;
@@ -65,9 +66,24 @@ fn json_escape(s: &str) -> String {
     o
 }
 
+static LAST_PANIC: std::sync::Mutex<String> = std::sync::Mutex::new(String::new());
+
 fn main() {
+    let r = std::panic::catch_unwind(real_main);
+    if r.is_err() {
+        eprintln!("mvh: uncaught panic: {}", LAST_PANIC.lock().map(|g| g.clone()).unwrap_or_default());
+        std::process::exit(3);
+    }
+}
+
+fn real_main() {
     // silence panic messages of caught panics (each case is run under catch_unwind)
-    std::panic::set_hook(Box::new(|_| {}));
+    // (the last message is kept so that a panic which escapes a generator is still reported)
+    std::panic::set_hook(Box::new(|i| {
+        if let Ok(mut g) = LAST_PANIC.lock() {
+            *g = format!("{}", i);
+        }
+    }));
     util::felt_modulus_check();
     let args: Vec<String> = std::env::args().collect();
     if args.len() < 2 {
@@ -86,6 +102,40 @@ fn main() {
                     let r = util::run_impl(&p, &st, execgen::host_with_advice(&adv), util::Lies::default(), None, "sys,mem");
                     println!("{}", r.answer);
                 }
+            }
+        }
+        "aux" => {
+            // mvh aux <file.masm> <stack csv|->   (probe: first/last values of the auxiliary columns)
+            use winter_prover::Trace;
+            let src = fs::read_to_string(&args[2]).expect("source file");
+            let st: Vec<u64> = if args[3] == "-" { vec![] } else { args[3].split(',').map(|x| x.parse().unwrap()).collect() };
+            let adv: Vec<u64> = if args.len() > 4 && args[4] != "-" { args[4].split(',').map(|x| x.parse().unwrap()).collect() } else { vec![] };
+            let ksrc = if args.len() > 5 { Some(fs::read_to_string(&args[5]).expect("kernel file")) } else { None };
+            let p = execgen::assemble(ksrc.as_deref(), &src, false).expect("assembles");
+            let (mut trace, inputs) = airmon::execute_trace(&p, &st, &adv).expect("executes");
+            let ctx = airmon::AirCtx::new(&trace, inputs);
+            let rand: Vec<vm_core::Felt> = (0..16).map(|i| vm_core::Felt::new(1000 + i * 7919)).collect();
+            let aux = trace.build_aux_segment::<vm_core::Felt>(&[], &rand).unwrap();
+            println!("len={} last_step={} summary={:?}", ctx.len, ctx.last_step, trace.trace_len_summary());
+            println!("kernel product = {}", vm_core::StarkField::as_int(&c12::kernel_product(&p, &rand)));
+            for c in 0..aux.num_cols() {
+                let col: Vec<u64> = (0..ctx.len).map(|r| vm_core::StarkField::as_int(&aux.get(c, r))).collect();
+                let first_not_one = col.iter().position(|x| *x != 1);
+                let last_not_one = col.iter().rposition(|x| *x != 1);
+                if std::env::var("MVH_COL").ok().and_then(|v| v.parse::<usize>().ok()) == Some(c) {
+                    for r in 1..ctx.len {
+                        if col[r] != col[r - 1] {
+                            println!("   row {} -> {}: {} -> {} (opcode at {} = {})", r - 1, r, col[r - 1], col[r], r - 1, ctx.opcode_at(r - 1));
+                            let off = air::trace::DECODER_TRACE_OFFSET;
+                            let ms = trace.main_segment();
+                            for rr in [r - 1, r] {
+                                let cells: Vec<u64> = (0..24).map(|c| vm_core::StarkField::as_int(&ms.get(off + c, rr))).collect();
+                                println!("        decoder row {}: addr={} opbits={:?} h={:?} rest={:?}", rr, cells[0], &cells[1..8], &cells[8..16], &cells[16..24]);
+                            }
+                        }
+                    }
+                }
+                println!("col {} {}: first={} at_last_step={} very_last={} first!=1@{:?} last!=1@{:?}", c, c12::AUX_NAMES[c], col[0], col[ctx.last_step], col[ctx.len - 1], first_not_one, last_not_one);
             }
         }
         "decode" => {
@@ -112,6 +162,7 @@ fn main() {
                 "C09" => c09::generate(&mut em, seed, thorough),
                 "C10" => c10::generate_c10(&mut em, seed, thorough),
                 "C19" => c10::generate_c19(&mut em, seed, thorough),
+                "C12" => c12::generate(&mut em, seed, thorough),
                 "C13" => c13::generate(&mut em, seed, thorough),
                 "C15" => c15::generate(&mut em, seed, thorough),
                 "C16" => c16::generate(&mut em, seed, thorough),
